@@ -16,7 +16,7 @@ def check_case(case):
     except Exception as e:  # noqa
         return [{"key": "exception", "what": "get_SCD raised %r for %s" % (e, seq), "case": case}], ref, None
     if not core.close(got, ref, 1e-9, 1e-12):
-        out.append({"key": "scd-mismatch", "what": "get_SCD(%s)=%r but definition gives %r" % (seq, got, ref),
+        out.append({"key": "scd-mismatch", "what": "get_SCD(%s)=%r but definition gives %r" % (seq if len(seq) <= 80 else seq[:60] + "...(%d residues)" % len(seq), got, ref),
                     "case": dict(case, expected=ref, observed=float(got))})
     ncharged = len(pat) - pat.count("0")
     if ncharged < 2 and got != 0:
@@ -38,6 +38,18 @@ def _consume(acc, seq, fam=None):
         acc.viol(x["key"], x["what"], x["case"])
     if ref != 0 and len(seq) >= 6:
         acc.sample({"seq": seq, "SCD_api": got, "SCD_ref": ref}, cap=1)
+
+
+def xl_pattern(N, k):
+    """Sequences with more than 1024 charged residues (blocked / vectorised evaluations split there): k selects the pattern."""
+    if k == 0:
+        return ("+-" * N)[:N]
+    if k == 1:
+        return "+" * (N // 2) + "-" * (N - N // 2)
+    if k == 2:
+        return ("++-0" * N)[:N]
+    d = spaces.de_bruijn(R.SYM, 6)
+    return ((d + d[::-1]) * (N // len(d) + 1))[:N]
 
 
 def shard(s):
@@ -64,6 +76,8 @@ def shard(s):
         fresh_world()
         for i, pat in enumerate(spaces.padded_cores()):
             _consume(acc, R.spell_rotating(pat, len(pat) % 3), ("PAD", i))
+    elif kind == "XL":
+        _consume(acc, R.spell_rotating(xl_pattern(s[1], s[2]), s[2]))
     elif kind == "DB":
         for pat in spaces.window_complete_chunks(R.SYM, 6, s[1]):
             _consume(acc, R.spell_rotating(pat, len(pat)))
@@ -84,6 +98,7 @@ def run(tier, seed, t0):
     LN = (64, 127, 128, 129, 200, 256, 257, 513) if tier == "quick" else (64, 127, 128, 129, 200, 255, 256, 257, 300, 400, 512, 700, 1000)
     shards += [("LONG", N) for N in LN]
     shards += [("PAD",)]
+    shards = [("XL", N, k) for N in ((1100, 1501) if tier == "quick" else (1100, 1501, 2051, 2600)) for k in range(4)] + shards
     shards += [("DB", (L_,)) for L_ in ((23, 47, 97) if tier == "quick" else (17, 23, 31, 47, 61, 97, 150, 301))]
     SC = 200 if tier == "quick" else 520
     shards = [("SCAN", SC, "up"), ("SCAN", SC, "down")] + shards
@@ -92,7 +107,7 @@ def run(tier, seed, t0):
         PROP, tier, seed, acc, t0,
         rule="every charge pattern of length 1..%d (K/E/G), every pattern of length 1..%d in 17 spellings covering all 20 "
              "residues, every <=3-run pattern of length 2..%d, a structured family of long patterns (homopolymers, 2/3-block, periodic) "
-             "at lengths %s, and EVERY length 2..%d in strictly ascending and strictly descending order in a freshly imported package (4 "
+             "at lengths %s, four patterns with more than 1024 charged residues at 1100 and 1501 residues (thorough: to 2600), and EVERY length 2..%d in strictly ascending and strictly descending order in a freshly imported package (4 "
              "patterns with charged termini per length), and shared-core families (6 irregular cores of 24-40 residues with charged ends, each "
              "between every combination of 0/1/3/8 neutral residues on either side, core-major then padding-major, in a fresh package); one real get_SCD() call each, compared with "
              "(1/N) sum_{m>n} q_m q_n sqrt(m-n) evaluated with integer pair counts per distance and math.fsum; "
